@@ -20,7 +20,7 @@ ID = 'C05'
 LEVEL = 'exploration'
 RULE = ('Valid programs from the typed generator G (plus three helper '
         'declarations: a record type, a SUB and a FUNCTION) x a catalogue of '
-        '82 rule violations (type mismatch in assignment / operator / '
+        '84 rule violations (type mismatch in assignment / operator / '
         'condition / argument / CASE / FOR bound, undefined and duplicate '
         'label, duplicate definition, argument count, array rank, undefined '
         'type / field / procedure, misplaced EXIT / ELSE / ELSEIF / CASE / '
@@ -55,7 +55,8 @@ def F(name, lines, expect, at=0, when=None, ifline=False, unclosed=False):
     if isinstance(expect, str):
         expect = (expect,)
     return {'name': name, 'lines': lines, 'expect': tuple(expect), 'at': at,
-            'when': when, 'ifline': ifline and len(lines) == 1,
+            'when': when,
+            'ifline': ifline and (callable(lines) or len(lines) == 1),
             'unclosed': unclosed}
 
 
@@ -68,7 +69,29 @@ def parent_not(*kinds):
 
 
 TM = 'TYPE_MISMATCH'
+
+
+def scalar_params(ctx):
+    pr = ctx.get('proc')
+    return [q for q in (pr.params if pr is not None else [])
+            if not q.is_array and q.t in ('%', '&', '!', '#', '$')]
+
+
+def retval_lines(ctx):
+    pr = ctx['proc']
+    return ['%s = 5' % pr.name] if pr.rt == '$' else ['%s = "s"' % pr.name]
+
+
+def param_lines(ctx):
+    q = scalar_params(ctx)[0]
+    return ['%s = 5' % q.name] if q.t == '$' else ['%s = "s"' % q.name]
+
+
 CATALOGUE = [
+    F('function_result_type_mismatch', retval_lines, TM,
+      when=lambda c: c['routine'] == 'function', ifline=True),
+    F('parameter_type_mismatch', param_lines, TM,
+      when=lambda c: bool(scalar_params(c)), ifline=True),
     # -- type mismatch: assignment, operator, condition, argument
     F('assign_num_to_string', ['zzqa$ = 5'], TM, ifline=True),
     F('assign_string_to_int', ['zzqb% = "a"'], TM, ifline=True),
@@ -252,9 +275,12 @@ def sites_of(prog):
     path ends in the marker 'then'."""
     out = []
 
+    cur_proc = [None]
+
     def ctx(routine, enclosing, parent, after_decl):
         return {'routine': routine, 'enclosing': tuple(enclosing),
-                'parent': parent, 'after_decl': after_decl}
+                'parent': parent, 'after_decl': after_decl,
+                'proc': cur_proc[0]}
 
     def walk(body, path, routine, enclosing, parent, module_limit=None):
         n = len(body) if module_limit is None else module_limit
@@ -283,7 +309,9 @@ def sites_of(prog):
     # the procedures themselves
     for i, s in enumerate(prog.body):
         if isinstance(s, A.Proc):
+            cur_proc[0] = s
             walk(s.body, [i, 0], s.kind, [], s.kind)
+    cur_proc[0] = None
     return out
 
 
@@ -308,10 +336,12 @@ def applicable(fault, ctx):
     return True
 
 
-def inject(prog, path, fault):
+def inject(prog, path, fault, ctx=None):
     """-> (new program, list of injected Raw statements, enclosing stmt)."""
     p2 = copy.deepcopy(prog)
-    raws = [A.Raw(t, alone=True) for t in fault['lines']]
+    lines = fault['lines'](ctx) if callable(fault['lines']) else \
+        fault['lines']
+    raws = [A.Raw(t, alone=True) for t in lines]
     body, idx = body_at(p2, path)
     enclosing = None
     if idx == 'then':
@@ -364,7 +394,7 @@ def outcome(text):
 
 def judge_fault(base, style, path, ctx, fault):
     """-> (failures, info) for one injection."""
-    p2, raws, enclosing = inject(base, path, fault)
+    p2, raws, enclosing = inject(base, path, fault, ctx)
     r = render.render(p2, style)
     text = r.text
     lines = [r.pos[id(x)]['line'] for x in raws] if ctx['parent'] != \
